@@ -22,7 +22,8 @@ from mir import CheckerError, op_local
 from c08 import var_of
 
 FN = "s4lib::readers::filepreprocessor::pathbuf_to_filetype_impl"
-TRAIL = {"~", "-", ",", "?", ";"}
+# the junk characters the property names: "leading or trailing junk characters (~ - , ? ; .)"
+TRAIL = {"~", "-", ",", "?", ";", "."}
 LEAD = {"~", "-", ",", "?", ";", "."}
 
 
@@ -311,9 +312,11 @@ def run(prog, rep, tier):
     rep.examined(R165, FN + "|junk", sample={"trailing_sets": [sorted(x) for x in sets_e], "leading_sets": [sorted(x) for x in sets_s], "single_strip_calls": [c.d.split("::")[-1] for c in strip]})
     if strip:
         rep.violation(R165, FN + "|junk|single", "pathbuf_to_filetype_impl: %s removes a single junk character; names with two or more junk characters keep some and lose their type word" % strip[0].d.split("::")[-1])
-    if TRAIL not in sets_e:
-        rep.violation(R165, FN + "|junk|trailing", "pathbuf_to_filetype_impl: trailing junk is not trimmed with trim_end_matches over %s (found %s)" % (sorted(TRAIL), [sorted(x) for x in sets_e]))
-    if LEAD not in sets_s:
+    if not any(TRAIL <= x for x in sets_e):
+        miss_ = sorted(TRAIL - (sets_e[0] if sets_e else set()))
+        rep.violation(R165, FN + "|junk|trailing", "pathbuf_to_filetype_impl: trailing junk is trimmed over %s, which lacks the documented junk character(s) %s; `wtmp.` or `host.utmp.~` keep a trailing '.', "
+                      "have an empty extension and are read as text although `wtmp-` and `wtmp~` are recognised" % ([sorted(x) for x in sets_e], miss_))
+    if not any(LEAD <= x for x in sets_s):
         rep.violation(R165, FN + "|junk|leading", "pathbuf_to_filetype_impl: leading junk is not trimmed with trim_start_matches over %s (found %s)" % (sorted(LEAD), [sorted(x) for x in sets_s]))
     # ------------------------------------------------------------ R16.6 documented type words are in the suffix table
     R166 = rep.rule("R16.6", "the suffix table recognises the documented type words and compression suffixes")
